@@ -111,3 +111,5 @@ def run(ctx):
                          "slice / dedrift / integrate / save (.fil, .h5) / load over up to 4 live frames, drawn by TLC from "
                          "FrameLife.tla, on 3 geometries; distinct = distinct (geometry, action sequence)")
     run_for(ctx, "C03")
+    from .frame_t import frame_trace_leg
+    frame_trace_leg(ctx, "C03")
